@@ -17,7 +17,7 @@ def run(tier, seed):
     quick = tier != 'thorough'
     c01.pinned_hooks(chk)
     items, asts = [], []
-    for i in range(360 if quick else 2500):
+    for i in range(360 if quick else 900):
         s = rng.randrange(1 << 30)
         ym = i % 4 == 0
         ast, src = genprog.gen_case_program(s, ym)
